@@ -14,7 +14,6 @@ from harness.props import pyfun_util
 
 PID = "C09"
 K_TAIL = "long-write-keeps-old-tail"
-K_NONVALUE = "long-write-to-non-value-attribute-reports-success"
 
 MTUS = [23, 24, 27, 28, 185, 247, 512, 517]
 
@@ -171,6 +170,7 @@ def gen_cases(ctx):
     for _ in range(12 if ctx.thorough else 4):
         ops = random_ops(rng, 3)
         ops.append([rng.choice(["write", "write_long"]), rng.choice([H_DESC40, H_UD, H_CCCD, H_DECL, H_SVC, H_DESC128]), val(rng, rng.randrange(30, 80)).hex()])
+        ops.append(["write_long", rng.choice([H_DESC40, H_CCCD, H_DECL, 99]), val(rng, rng.choice([0, 1, 3])).hex()])
         ops += random_ops(rng, 5)[1:]
         add(ops, "long-write-non-value")
     return cases
@@ -265,18 +265,19 @@ def oracle(ctx, ci, case, res, stats):
                         else:
                             bad("%s reported success but the stored value is not the written value" % name,
                                 expected=v.hex(), observed=post.get(h, b"").hex())
+                elif name != "write_command" and long_path and len(v) == 0 and pre.get(h) == post.get(h):
+                    # write_long of no byte at all: nothing is sent but an Execute Write on an empty queue;
+                    # "the old tail is kept" in its extreme form, whatever the handle holds
+                    if pre.get(h):
+                        bad("long write reported success but the stored value keeps the old tail", key=K_TAIL,
+                            expected="", observed=post.get(h, b"").hex())
                 elif kind == "cccd" and name != "write_command":
                     if long_path:
-                        bad("long write to a non-value attribute reported success, nothing stored", key=K_NONVALUE,
-                            expected="ATT/GATT error", observed=r)
+                        bad("long write to a CCCD reported success", expected="ATT/GATT error", observed=r)
                     elif not (len(post[h]) == 2 and post[h][:len(v)] == v):
                         bad("CCCD write reported success but the value is not stored", expected=v.hex(), observed=post[h].hex())
                 elif name != "write_command":
-                    if long_path and pre.get(h) == post.get(h):
-                        bad("long write to a non-value attribute reported success, nothing stored", key=K_NONVALUE,
-                            expected="ATT/GATT error", observed=r)
-                    else:
-                        bad("%s to handle %s (%s) reported success" % (name, h, kind), expected="ATT/GATT error", observed=r)
+                    bad("%s to handle %s (%s) reported success" % (name, h, kind), expected="ATT/GATT error", observed=r)
             elif ok:
                 bad("%s returned %r" % (name, r), expected=True, observed=r)
             else:
